@@ -66,7 +66,7 @@ Fixpoint assoc_byte {A} (r : byte) (l : list (byte * A)) : option A :=
 Definition single_kind (r : byte) : option kind := assoc_byte r single_rune_table.
 
 (* byteIsWhitespace: SPACE TAB CARRIAGERETURN LINETERMINATOR COMMA *)
-Definition ws_table : list byte := [32; 9; 13; 10].
+Definition ws_table : list byte := [32; 9; 13; 10; 44].
 Definition is_ws (r : byte) : bool := existsb (N.eqb r) ws_table.
 
 (* runeIsIdent: a-z A-Z 0-9 SUB UNDERSCORE *)
